@@ -41,8 +41,12 @@ def write(env, build_inputs):
     rule_handler.run(build_inputs.edges(), build_inputs, buildfile, env)
     post_rules_hook.run(build_inputs, buildfile, env)
 
-    with open(filepath.string(env.base_dirs), 'w') as out:
+    # Write to a temporary file and move it into place so that an interrupted
+    # or failed run never leaves a truncated build file behind.
+    dest = filepath.string(env.base_dirs)
+    with open(dest + '.tmp', 'w') as out:
         buildfile.write(out)
+    os.replace(dest + '.tmp', dest)
 
 
 def flags_vars(name, value, buildfile):
